@@ -194,3 +194,29 @@ Definition apply_op (st : state) (o : op) : state :=
 
 Definition init : state := mkSt (sm_new 0 0) [] 0 false.
 Definition run_ops (st : state) (ops : list op) : state := fold_left apply_op ops st.
+
+(* ------------------------------------------------------------------ *)
+(** * Buffer pool accounting ([lib/src/pool.rs] over [poule::Pool]) *)
+
+Record pool := mkPool { p_used : N; p_cap : N; p_max : N; p_held : list N }.
+
+(** [Pool::with_capacity(minimum, maximum, _)] *)
+Definition pool_new (mn mx : N) : pool := mkPool 0 (N.min mn mx) mx [].
+
+(** [Pool::checkout]: doubles the capacity (at least 1, up to the maximum) when full, then
+    hands out a buffer iff one is free; [id] names the checkout the caller keeps *)
+Definition pool_checkout (p : pool) (id : N) : pool * bool :=
+  if lmem id (p_held p) then (p, false)
+  else
+    let cap := if (p_used p =? p_cap p) && (p_cap p <? p_max p)
+               then N.max (p_cap p) (N.min (N.max (p_cap p * 2) 1) (p_max p)) else p_cap p in
+    if p_used p <? cap then (mkPool (p_used p + 1) cap (p_max p) (p_held p ++ [id]), true)
+    else (mkPool (p_used p) cap (p_max p) (p_held p), false).
+
+(** dropping a [Checkout] returns the buffer *)
+Definition pool_checkin (p : pool) (id : N) : pool :=
+  if lmem id (p_held p) then mkPool (p_used p - 1) (p_cap p) (p_max p) (lremove id (p_held p)) else p.
+
+Inductive pop := PCheckout (id : N) | PCheckin (id : N).
+Definition pool_step (p : pool) (o : pop) : pool :=
+  match o with PCheckout id => fst (pool_checkout p id) | PCheckin id => pool_checkin p id end.
